@@ -6,6 +6,7 @@
 //!   gmsim digest <ID> <tier> [--serial]   print the run digest only (determinism proof)
 //!   gmsim journal-run <ID> <tier> <seed> <run> <file>   one run, in-flight schedule journalled
 
+mod gen_c14;
 mod gen_common;
 mod gen_sm2enc;
 mod gen_sm2kex;
@@ -14,6 +15,7 @@ mod gen_sm9;
 mod gen_zuc;
 mod libglue;
 mod objs;
+mod ops_c14;
 mod ops_doc;
 mod ops_entry;
 mod ops_sm2;
@@ -74,6 +76,10 @@ fn main() {
         Some("check") => cmd_check(&args),
         Some("digest") => cmd_digest(&args),
         Some("journal-run") => cmd_journal_run(&args),
+        Some("c14-child") => {
+            gen_c14::child_main(args.get(2).and_then(|s| s.parse().ok()).unwrap_or(2));
+            0
+        }
         _ => {
             eprintln!("usage: gmsim check <ID> <quick|thorough> | replay <file> | selftest | digest <ID> <tier>");
             2
